@@ -11,21 +11,27 @@ import (
 // history. The state space is partitioned by the opcode of the record ahead (param op; 256 = any unknown opcode
 // >= 0x10 with the input holding exactly that record), by inChunk, and by the option set.
 // params: op, max (bytes ahead), inchunk, validate, emit (EmitChunks), lim (0: no caller limits; else MaxRecordSize =
-// MaxDecompressedChunkSize = lim and the allocation ceiling is 2*lim)
+// MaxDecompressedChunkSize = lim and the allocation ceiling is 2*lim), long (attachment without callback: record longer than the input)
 func VC10LexStep() {
 	op, max, inchunk := vParam("op"), vParam("max"), vParam("inchunk") == 1
 	lim := vParam("lim")
-	vLoopBound(4 * 4096)
+	vLoopBound(256) // inputs are at most 64 bytes: no loop of the library can legitimately run that often
 	n := vSymInt("n")
 	in := vSymBytes("in", n, max)
 	vAssume(n >= 1)
 	if op < 256 {
 		vAssume(in[0] == byte(op))
 		if op == 9 && vParam("cb") == 0 {
-			// an attachment without a callback is skipped and the lexer goes on to the next record (a second step):
-			// the input holds exactly this record, so the state after the skip is "end of input"
+			// an attachment without a callback is skipped and the lexer goes on to the next record (a second step).
+			// Partition of the record length L: L+9 == n (exactly this record ahead: after the skip the lexer is at end
+			// of input), L+9 > n (the record claims more than there is, up to 2^64-1) - one job each; L+9 < n is the
+			// state "another record ahead", which the other jobs start from.
 			vAssume(n >= 9)
-			vAssume(uint64(n) == 9+sU64(in, 1))
+			if vParam("long") == 1 {
+				vAssume(sU64(in, 1) > uint64(n-9))
+			} else {
+				vAssume(uint64(n) == 9+sU64(in, 1))
+			}
 		}
 	} else {
 		vAssume(in[0] >= 0x10)
